@@ -32,6 +32,8 @@ class Report:
         self.seed = seed
         self.t0 = time.time()
         self.functions = []        # per function under contract
+        self.used_contracts = set()   # callee contracts applied at call sites of the verified functions
+        self.inlined = set()          # helpers without contract executed in place
         self.bindings = {}         # function -> binding-site names (recorded in the baseline: renamed locals keep their contracts)
         self.obligations = []      # per obligation result
         self.undecided = []        # strings
@@ -54,6 +56,8 @@ class Report:
             self.functions.append(dict(name=g['name'], obligations=len(g['obls']), paths=g['paths'],
                                        hash=g['hash'], error=g['error']))
             self.bindings[g['name']] = g.get('bindings')
+            self.used_contracts.update(g.get('used') or [])
+            self.inlined.update(g.get('inlined') or [])
             self.dropped.extend(g['dropped'])
             if g['error']:
                 self.undecided.append('%s: out of subset: %s' % (g['name'], g['error']))
@@ -294,6 +298,9 @@ def finalise(report, level, level_checker_cmd):
             functions_under_contract=report.functions,
             by_backend=report.by_solver, solver_seconds=round(report.solver_seconds, 2),
             by_kind=_by_kind(report.obligations),
+            callee_contracts_relied_on_but_not_verified_in_this_check=sorted(
+                report.used_contracts - {f['name'] for f in report.functions}),
+            helpers_inlined=sorted(report.inlined),
             canaries=report.canaries,
             statements_dropped_by_extraction=sorted(set(report.dropped)),
             lemmas=report.lemmas,
